@@ -46,7 +46,7 @@ _BASE: Dict[str, Any] = {}
 # ---------------------------------------------------------------------------------------------
 # loading (always through the real loaders)
 # ---------------------------------------------------------------------------------------------
-def load_files(files: Dict[str, str]) -> Any:
+def load_files(files: Dict[str, str], aux: Optional[Dict[str, bytes]] = None) -> Any:
     from odxtools.database import Database
     d = os.path.join(emit.scratch_dir(), f"c18_{os.getpid()}_{next(_counter)}")
     os.makedirs(d)
@@ -57,13 +57,16 @@ def load_files(files: Dict[str, str]) -> Any:
             with open(p, "w", encoding="utf-8") as f:
                 f.write(files[fn])
             db.add_odx_file(p)
+        for n, data in sorted((aux or {}).items()):
+            if os.path.basename(n).lower() != "index.xml":
+                db.add_auxiliary_file(n, io.BytesIO(data))
         db.refresh()
         return db
     finally:
         shutil.rmtree(d, ignore_errors=True)
 
 
-def load_as_pdx(files: Dict[str, str]) -> Any:
+def load_as_pdx(files: Dict[str, str], aux: Optional[Dict[str, bytes]] = None) -> Any:
     import odxtools
     d = os.path.join(emit.scratch_dir(), f"c18_{os.getpid()}_{next(_counter)}")
     os.makedirs(d)
@@ -72,13 +75,15 @@ def load_as_pdx(files: Dict[str, str]) -> Any:
         with zipfile.ZipFile(p, "w") as z:
             for fn in sorted(files):
                 z.writestr(fn, files[fn])
+            for n, data in sorted((aux or {}).items()):
+                z.writestr(n, data)
         return odxtools.load_pdx_file(p)
     finally:
         shutil.rmtree(d, ignore_errors=True)
 
 
-def base(db_id: str) -> Tuple[Dict[str, str], Any]:
-    """(ODX documents, database loaded the primary way) -- cached per process"""
+def base(db_id: str) -> Tuple[Dict[str, str], Any, Dict[str, bytes]]:
+    """(ODX documents, database loaded the primary way, auxiliary PDX members) -- cached per process"""
     if db_id not in _BASE:
         import odxtools
         files = ec.base_files(db_id, repo_root())
@@ -86,13 +91,13 @@ def base(db_id: str) -> Tuple[Dict[str, str], Any]:
             db = load_files(files)
         else:
             db = odxtools.load_pdx_file(os.path.join(repo_root(), "examples", db_id + ".pdx"))
-        _BASE[db_id] = (files, db)
+        _BASE[db_id] = (files, db, ec.base_aux(db_id, repo_root()))
     return _BASE[db_id]
 
 
-def independent_copy(db_id: str, files: Dict[str, str]) -> Any:
+def independent_copy(db_id: str, files: Dict[str, str], aux: Dict[str, bytes]) -> Any:
     """a second load through the OTHER loader"""
-    return load_as_pdx(files) if db_id in ec.GENERATED else load_files(files)
+    return load_as_pdx(files, aux) if db_id in ec.GENERATED else load_files(files, aux)
 
 
 # ---------------------------------------------------------------------------------------------
@@ -296,7 +301,7 @@ def run_case(case: Dict[str, Any], part: Optional[Part] = None) -> List[Tuple[st
     out: List[Tuple[str, str]] = []
     cnt = part.count if part is not None else (lambda *a, **k: None)
     db_id, edit, target = case["db"], case.get("edit"), case.get("target")
-    files, db = base(db_id)
+    files, db, aux = base(db_id)
 
     def compare_and_judge(kind: str, ed: Optional[str], fn_new: Dict[str, str], fn_old: Dict[str, str], d_new: Any, d_old: Any) -> Optional[Dict[str, Any]]:
         exp = ref.expected_changes(fn_new, fn_old)
@@ -316,7 +321,7 @@ def run_case(case: Dict[str, Any], part: Optional[Part] = None) -> List[Tuple[st
 
     if edit is None:
         compare_and_judge("self/same-object", None, files, files, db, db)
-        copy = independent_copy(db_id, files)
+        copy = independent_copy(db_id, files, aux)
         compare_and_judge("self/independent-copy", None, files, files, db, copy)
         compare_and_judge("self/independent-copy", None, files, files, copy, db)
         probs, n, how = judge_metrics(files, db)
@@ -338,7 +343,7 @@ def run_case(case: Dict[str, Any], part: Optional[Part] = None) -> List[Tuple[st
     cnt("edits_applied")
     cnt("applied_" + edit)
     try:
-        edb = load_files(efiles)
+        edb = load_files(efiles, aux) if db_id in ec.GENERATED else load_as_pdx(efiles, aux)
     except (OdxError, Exception) as e:
         # the edited document has to be a loadable database; if it is not, the EDIT is wrong, not the tool
         raise RuntimeError(f"edited database does not load ({db_id} {edit} {target}): {type(e).__name__}: {e}")
@@ -356,7 +361,7 @@ def run_case(case: Dict[str, Any], part: Optional[Part] = None) -> List[Tuple[st
             part.add("expected_kinds", kind)
     compare_and_judge("self/same-object", None, efiles, efiles, edb, edb)
     if case.get("deep"):
-        compare_and_judge("self/independent-copy", None, efiles, efiles, edb, load_as_pdx(efiles))
+        compare_and_judge("self/independent-copy", None, efiles, efiles, edb, independent_copy(db_id, efiles, aux))
     probs, n, how = judge_metrics(efiles, edb)
     out.extend(probs)
     cnt("evaluations", n)
